@@ -174,6 +174,32 @@ def segmentation_rules(chk: Check, R: str, fi) -> None:
                         n.where(),
                     )
                 chk.ob(R, f"{fi.key}: pre-append read `{norm(n.ast)[:40]}` is boundary-safe", okb)
+        # a separator search that starts at a position remembered on self across reads
+        # must start at least len(separator) - 1 bytes before the end of what was searched
+        for c in calls(fi.node):
+            mc = method_call(c)
+            if not (mc and mc[1] in ("find", "index") and dotted(mc[0]) == "self.buffer" and len(c.args) >= 2 and is_self_attr(c.args[1])):
+                continue
+            attr = c.args[1].attr
+            sep = chk.proj.eval_const(fi.module, c.args[0])
+            need = (len(sep) - 1) if isinstance(sep, (bytes, str)) else 1
+            okp = True
+            assigns = [st for m in (fi.cls.methods.values() if fi.cls else [fi]) for st in walk(m.node) if isinstance(st, (ast.Assign, ast.AugAssign)) and any(is_self_attr(t, attr) for t in (st.targets if isinstance(st, ast.Assign) else [st.target]))]
+            for st in assigns:
+                v = st.value
+                if isinstance(st, ast.Assign) and isinstance(v, ast.Constant) and v.value == 0:
+                    continue
+                if isinstance(st, ast.Assign) and isinstance(v, ast.Call) and dotted(v.func) == "max" and len(v.args) == 2:
+                    v = v.args[1] if isinstance(v.args[0], ast.Constant) else v.args[0]
+                back = isinstance(st, ast.Assign) and isinstance(v, ast.BinOp) and isinstance(v.op, ast.Sub) and norm(v.left) == "len(self.buffer)" and isinstance(v.right, ast.Constant) and isinstance(v.right.value, int) and v.right.value >= need
+                if not back:
+                    okp = False
+                    chk.finding(
+                        R, fi.key, f"search-start:self.{attr}={norm(st.value)[:40]}",
+                        f"the separator search starts at `self.{attr}`, which `{norm(st)[:70]}` sets without backing off {need} byte(s): a separator split across two reads (CR in one, LF in the next) is never found, so the same bytes give a different outcome depending on where the reads fall",
+                        fi.loc(c),
+                    )
+            chk.ob(R, f"{fi.key}: search start self.{attr} is boundary-safe", okp, f"{len(assigns)} assignments")
         # no read counter / per-call accumulation other than the buffer
         bad = []
         for st in walk(fi.node):
@@ -486,6 +512,26 @@ def rule_s4(chk: Check) -> None:
                 if not ok3:
                     chk.finding("S4", fi.key, f"recv-dropped:{var}", f"a non-empty `{var}` from tls_conn.recv() can be discarded without being handed to the inner protocol", fi.loc(st))
                 chk.ob("S4", f"{fi.key}: recv result reaches inner protocol", ok3)
+                # drain completeness: recv() hands out at most one TLS record; after a
+                # non-empty result the pump must call recv() again (until it raises
+                # WantReadError or returns nothing) - returning earlier leaves complete
+                # records that arrived in the same TCP read undelivered until more
+                # ciphertext arrives
+                all_recv = {n.id for n in nodes_calling(g3, lambda c: method_call(c) is not None and method_call(c)[1] == "recv")}
+                ok4 = True
+                wit = None
+                for s0 in starts:
+                    for path, _st in walk_paths(g3, s0, init_f, boolfacts_step, stop=lambda n: n.id in all_recv or n.kind == "exit", follow=normal_only):
+                        if path[-1][0].kind == "exit":
+                            ok4 = False
+                            wit = path
+                if not ok4:
+                    chk.finding(
+                        "S4", fi.key, f"drain-incomplete:{var}",
+                        f"after a non-empty `{var}` the pump can return without calling recv() again: recv() yields at most one TLS record, so further complete records from the same TCP read (e.g. the CRLF or the upload body sent as its own record) stay undelivered - the outcome depends on how the peer's bytes were split into records and reads",
+                        fi.loc(st), g3.fmt_path(wit) if wit else [],
+                    )
+                chk.ob("S4", f"{fi.key}: pump keeps reading after a non-empty recv()", ok4)
     chk.floor("S4", "recv loops", loops, 2)
 
     # (c) data_received: handshake xor application processing
